@@ -3,9 +3,10 @@ C10 — external tensor reads never escape the model directory: property theorem
 Model: `IrVerif/Model/Path.lean`; helper lemmas: `IrVerif/Lemmas/Path.lean`.
 -/
 import IrVerif.Lemmas.PathReal
+import IrVerif.Lemmas.PathLoad
 namespace IrVerif.Path
 
-/-- **C10_lexical**: when check 1 (_core.py:779-789) passes, the components of
+/-- **C10_lexical**: when check 1 (_core.py:789-799) passes, the components of
 `normpath(abspath(join(base, loc)))` extend those of `normpath(abspath(base))` *component-wise*
 (so a sibling such as /a/bc of the base /a/b is excluded, and a root base is handled), and both
 are made only of entry names (no "", ".", ".." and no separator inside a component): the path
@@ -33,7 +34,7 @@ example : check1 "/w".toList "sub".toList "../f".toList = false := by decide
 example : ¬ (comps "/a/b".toList <+: comps "/a/bc/f".toList) := by decide
 
 /-- **C10_load_base_nonempty**: for every spelling of the model path (absolute, relative, "./x",
-bare name, trailing separators, empty) `load` (as fixed for D23, _io.py:34-37) assigns a non-empty
+bare name, trailing separators, empty) `load` (as fixed for D23, _io.py:34-40) assigns a non-empty
 base directory, so the containment checks are never disabled for a loaded model. -/
 theorem C10_load_base_nonempty (modelPath : Str) : loadBase modelPath ≠ [] := by
   unfold loadBase
@@ -47,7 +48,7 @@ example : loadBaseUnfixed "model.onnx".toList = [] := by decide
 example : loadBase "model.onnx".toList = DOT := by decide
 example : loadBase "dir/model.onnx".toList = "dir".toList := by decide
 
-/-- **C10_real**: when check 2 (_core.py:792-800) passes, the components of
+/-- **C10_real**: when check 2 (_core.py:802-810) passes, the components of
 `realpath(join(base, loc))` extend those of `realpath(base)` component-wise, and both consist of
 entry names only.  For every file system, cwd string, base spelling and location. -/
 theorem C10_real (fs : FS) (kfuel fuel : Nat) (cwdS : Str) (cwd : Loc) (base loc : Str)
@@ -116,28 +117,52 @@ theorem openFile_some (fs : FS) (kfuel : Nat) (cwd : Loc) (p : Str) (i : Nat)
         subst h
         exact ⟨l, rfl, hg⟩
 
+/-- what is known about a file the guarded read opened: it is the regular file `i` at the
+location `l` the kernel resolved `join(base, loc)` to; it has at most one link; `l` lies
+component-wise below `realpath(base)` and below the kernel's own resolution `bl` of the base whenever
+the base resolves; `l` is reached through real directories only; the path is also lexically inside -/
+def SafeOpen (fs : FS) (kfuel fuel : Nat) (cwd : Loc) (base loc : Str) (i : Nat) : Prop :=
+  ∃ l, kresolve fs kfuel cwd (tensorPath base loc) true = some l ∧
+    fs.get l = some (Node.file i) ∧
+    fs.nlink i ≤ 1 ∧
+    comps (realpath fs kfuel fuel (render cwd) cwd base) <+: l ∧
+    (∀ bl, kresolve fs kfuel cwd base true = some bl → bl <+: l) ∧
+    Chain fs l ∧
+    comps (abspath (render cwd) base) <+: comps (abspath (render cwd) (tensorPath base loc))
+
+theorem safeOpen_of_pass (fs : FS) (kfuel fuel : Nat) (cwd : Loc) (hcwd : RealDir fs cwd)
+    (hfuel : kfuel ≤ fuel) (base loc : Str) (i : Nat)
+    (hv : checkContainment fs kfuel fuel (render cwd) cwd base loc = Verdict.pass)
+    (ho : openFile fs kfuel cwd (tensorPath base loc) = some i) :
+    SafeOpen fs kfuel fuel cwd base loc i := by
+  obtain ⟨_, hc1, hc2, hc3⟩ := checkContainment_pass _ _ _ _ _ _ _ hv
+  obtain ⟨l, hk, hg⟩ := openFile_some _ _ _ _ _ ho
+  obtain ⟨hrp, hchain⟩ := realpath_of_kresolve fs kfuel fuel cwd hcwd _ kfuel l hk hfuel
+  have hin : comps (realpath fs kfuel fuel (render cwd) cwd base) <+: l := by
+    have := contained_comps _ _ hc2
+    rwa [hrp, comps_render l hchain.1] at this
+  refine ⟨l, hk, hg, ?_, hin, ?_, hchain, contained_comps _ _ hc1⟩
+  · unfold check3 at hc3
+    rw [hrp] at hc3
+    unfold statNlink at hc3
+    rw [kresolve_render fs kfuel cwd l hchain _ hg (by intro t; simp)] at hc3
+    simpa [hg] using hc3
+  · intro bl hbl
+    obtain ⟨hrb, hcb⟩ := realpath_of_kresolve fs kfuel fuel cwd hcwd _ kfuel bl hbl hfuel
+    rwa [hrb, comps_render bl hcb.1] at hin
+
 /-- **C10_read_safe**: with a non-empty base directory, whenever a read through any entry point
-returns bytes, then (a) the kernel resolved `join(base, loc)` to a location `l` holding a regular
-file `i` and the bytes are the requested slice of that file's content; (b) that file has at most
-one link; (c) `l` lies component-wise below the fully resolved base directory: below
-`realpath(base)`, which is the kernel's own resolution `bl` of the base whenever the base resolves;
-(d) `l` is reached through real directories only (no symbolic link left in it); (e) the path also
-stays lexically inside the base.  Any other location does not return bytes (see
-C10_all_entry_points for "raised before any open").  Hypotheses: the working directory is a chain
-of real directories and `os.getcwd()` is its rendering; the Python recursion bound is at least the
-kernel's ELOOP bound. -/
+returns bytes, they are the requested slice of the content of a regular file `i` that is a safe
+open (`SafeOpen`: at most one link, resolved location below the fully resolved base directory,
+reached through real directories only, lexically inside as well).  Any other location does not
+return bytes (`ReadResult` is `raised` otherwise; see C10_open_safe / C10_all_entry_points for
+"before any byte is read").  Hypotheses: the working directory is a chain of real directories and
+`os.getcwd()` is its rendering; the Python recursion bound is at least the kernel's ELOOP bound. -/
 theorem C10_read_safe (fs : FS) (kfuel fuel : Nat) (cwd : Loc) (hcwd : RealDir fs cwd)
     (hfuel : kfuel ≤ fuel) (base loc : Str) (offset length : Nat) (ep : EntryPoint)
     (bytes : List Nat) (hb : base ≠ [])
     (h : (read fs kfuel fuel (render cwd) cwd base loc offset length ep).1 = ReadResult.ok bytes) :
-    ∃ l i, kresolve fs kfuel cwd (tensorPath base loc) true = some l ∧
-      fs.get l = some (Node.file i) ∧
-      bytes = ((fs.data i).drop offset).take length ∧
-      fs.nlink i ≤ 1 ∧
-      comps (realpath fs kfuel fuel (render cwd) cwd base) <+: l ∧
-      (∀ bl, kresolve fs kfuel cwd base true = some bl → bl <+: l) ∧
-      Chain fs l ∧
-      comps (abspath (render cwd) base) <+: comps (abspath (render cwd) (tensorPath base loc)) := by
+    ∃ i, bytes = ((fs.data i).drop offset).take length ∧ SafeOpen fs kfuel fuel cwd base loc i := by
   unfold read at h
   cases hv : checkContainment fs kfuel fuel (render cwd) cwd base loc with
   | rej1 => simp [hv] at h
@@ -145,26 +170,12 @@ theorem C10_read_safe (fs : FS) (kfuel fuel : Nat) (cwd : Loc) (hcwd : RealDir f
   | rej3 => simp [hv] at h
   | skipped => exact absurd (checkContainment_skipped _ _ _ _ _ _ _ hv) hb
   | pass =>
-    obtain ⟨_, hc1, hc2, hc3⟩ := checkContainment_pass _ _ _ _ _ _ _ hv
     simp only [hv] at h
     cases ho : openFile fs kfuel cwd (tensorPath base loc) with
     | none => simp [ho] at h
     | some i =>
       simp only [ho] at h
-      obtain ⟨l, hk, hg⟩ := openFile_some _ _ _ _ _ ho
-      obtain ⟨hrp, hchain⟩ := realpath_of_kresolve fs kfuel fuel cwd hcwd _ kfuel l hk hfuel
-      have hin : comps (realpath fs kfuel fuel (render cwd) cwd base) <+: l := by
-        have := contained_comps _ _ hc2
-        rwa [hrp, comps_render l hchain.1] at this
-      refine ⟨l, i, hk, hg, (produce_ok _ _ _ _ _ h).1, ?_, hin, ?_, hchain, contained_comps _ _ hc1⟩
-      · unfold check3 at hc3
-        rw [hrp] at hc3
-        unfold statNlink at hc3
-        rw [kresolve_render fs kfuel cwd l hchain _ hg (by intro t; simp)] at hc3
-        simpa [hg] using hc3
-      · intro bl hbl
-        obtain ⟨hrb, hcb⟩ := realpath_of_kresolve fs kfuel fuel cwd hcwd _ kfuel bl hbl hfuel
-        rwa [hrb, comps_render bl hcb.1] at hin
+      exact ⟨i, (produce_ok _ _ _ _ _ h).1, safeOpen_of_pass fs kfuel fuel cwd hcwd hfuel base loc i hv ho⟩
 
 theorem read_rej (fs : FS) (kfuel fuel : Nat) (cwdS : Str) (cwd : Loc) (base loc : Str)
     (offset length : Nat) (ep : EntryPoint) (v : Verdict)
@@ -227,6 +238,73 @@ theorem C10_all_entry_points (fs : FS) (kfuel fuel : Nat) (cwdS : Str) (cwd : Lo
     · intro ep'
       rw [e, e]
       split <;> rfl
+
+end IrVerif.Path
+
+namespace IrVerif.Path
+
+/-- **C10_open_safe**: with a non-empty base directory, for every entry point, every file a read
+opens (an open event carrying an inode in the trace; whatever the read returns afterwards, e.g. it
+may still raise because the file is too short) is a safe open: no byte of a file outside the
+resolved base directory, or of a file with several links, is ever read. -/
+theorem C10_open_safe (fs : FS) (kfuel fuel : Nat) (cwd : Loc) (hcwd : RealDir fs cwd)
+    (hfuel : kfuel ≤ fuel) (base loc : Str) (offset length : Nat) (ep : EntryPoint) (hb : base ≠ [])
+    (p : Str) (i : Nat)
+    (h : Ev.openEv p (some i) ∈ (read fs kfuel fuel (render cwd) cwd base loc offset length ep).2) :
+    p = tensorPath base loc ∧ SafeOpen fs kfuel fuel cwd base loc i := by
+  obtain ⟨_, _, hopen, _⟩ := C10_all_entry_points fs kfuel fuel (render cwd) cwd base loc offset length
+    ep _ rfl
+  obtain ⟨hp, hv⟩ := hopen p (some i) h
+  have hpass : checkContainment fs kfuel fuel (render cwd) cwd base loc = Verdict.pass := by
+    rcases hv with hv | ⟨_, hb'⟩
+    · exact hv
+    · exact absurd hb' hb
+  refine ⟨hp, safeOpen_of_pass fs kfuel fuel cwd hcwd hfuel base loc i hpass ?_⟩
+  rw [read_open fs kfuel fuel (render cwd) cwd base loc offset length ep _ hpass (Or.inl rfl)] at h
+  cases ho : openFile fs kfuel cwd (tensorPath base loc) with
+  | none => simp [ho] at h
+  | some j =>
+    simp only [ho] at h
+    simp at h
+    rw [h.2]
+
+/-- **C10_load_base_is_model_dir**: for every spelling of the model path `p` whose last piece is a
+file name (bare name, relative, absolute, "./x", repeated or leading separators, through symbolic
+links), if the kernel opens `p` (resolves it to `ml`), then the base directory `load()` assigns
+(_io.py:34-40 as fixed for D23) resolves to a directory `d`, and `d` is exactly the directory in
+which the kernel looked up the file name: the model's directory. -/
+theorem C10_load_base_is_model_dir (fs : FS) (f : Nat) (cwd : Loc) (p : Str) (ml : Loc)
+    (hn : Clean (tailPart p)) (h : kresolve fs f cwd p true = some ml) :
+    ∃ d, kresolve fs f cwd (loadBase p) true = some d ∧ fs.get d = some Node.dir ∧
+      walk fs f d [tailPart p] true = some ml :=
+  load_base_is_model_dir fs f cwd p ml hn h
+
+/-- **C10_load_read_safe**: end to end.  A model opened from `p` (any spelling) gets the base
+directory `loadBase p`; every read of one of its external tensors that returns bytes returns the
+requested slice of a regular file with at most one link whose resolved location `l` lies below the
+model's directory `d`. -/
+theorem C10_load_read_safe (fs : FS) (kfuel fuel : Nat) (cwd : Loc) (hcwd : RealDir fs cwd)
+    (hfuel : kfuel ≤ fuel) (p : Str) (ml : Loc) (hn : Clean (tailPart p))
+    (hopen : kresolve fs kfuel cwd p true = some ml)
+    (loc : Str) (offset length : Nat) (ep : EntryPoint) (bytes : List Nat)
+    (h : (read fs kfuel fuel (render cwd) cwd (loadBase p) loc offset length ep).1 =
+      ReadResult.ok bytes) :
+    ∃ d l i, kresolve fs kfuel cwd (loadBase p) true = some d ∧ fs.get d = some Node.dir ∧
+      walk fs kfuel d [tailPart p] true = some ml ∧
+      kresolve fs kfuel cwd (tensorPath (loadBase p) loc) true = some l ∧ d <+: l ∧
+      fs.get l = some (Node.file i) ∧ fs.nlink i ≤ 1 ∧
+      bytes = ((fs.data i).drop offset).take length := by
+  obtain ⟨d, hd1, hd2, hd3⟩ := load_base_is_model_dir fs kfuel cwd p ml hn hopen
+  obtain ⟨i, hbytes, l, hk, hg, hnl, _, hbl, _, _⟩ :=
+    C10_read_safe fs kfuel fuel cwd hcwd hfuel (loadBase p) loc offset length ep bytes
+      (C10_load_base_nonempty p) h
+  exact ⟨d, l, i, hd1, hd2, hd3, hk, hbl d hd1, hg, hnl, hbytes⟩
+
+example : tailPart "model.onnx".toList = "model.onnx".toList ∧ loadBase "model.onnx".toList = DOT := by
+  decide
+example : tailPart "a//m.onnx".toList = "m.onnx".toList ∧ loadBase "a//m.onnx".toList = "a".toList := by
+  decide
+example : loadBase "//m.onnx".toList = "//".toList := by decide
 
 end IrVerif.Path
 
